@@ -112,6 +112,9 @@ func c13GitBatch(c *fw.Ctx, names []string) map[string]bool {
 		}
 		os.RemoveAll(dir)
 	})
+	if c.Expired() {
+		return nil
+	}
 	res := make(map[string]bool, len(list))
 	for _, n := range list {
 		res[n] = false
@@ -261,27 +264,10 @@ func runC13(c *fw.Ctx) {
 	// names of the single-byte sweep that the batch front-end cannot carry (LF, empty or dot components, not under
 	// refs/) are asked one process each as well
 	for _, n := range extra[:nByteCtx] {
-		if !c13BatchEligible(n) && !strings.Contains(n, "\x00") {
+		if !c13BatchEligible(n) && !c13BatchEligible("refs/x/"+n) && !strings.Contains(n, "\x00") {
 			confNames = append(confNames, n)
 		}
 	}
-	spawned := make([]int8, len(confNames)) // 0 not asked, 1 accepted, 2 rejected
-	c.ParDo(len(confNames), 0, func(i int) {
-		n := confNames[i]
-		if strings.HasPrefix(n, "-") { // git treats a leading dash as an option; covered behind refs/x/
-			return
-		}
-		r := g.Run("check-ref-format", n)
-		if r.Code != 0 && r.Code != 1 {
-			fw.Abort("git check-ref-format %q exit %d: %s", n, r.Code, r.Err)
-		}
-		if (r.Code == 0) != gitRefnameOK(n) {
-			fw.Abort("refname model disagrees with real git on %q: git=%v model=%v", n, r.Code == 0, gitRefnameOK(n))
-		}
-		spawned[i] = int8(r.Code) + 1
-		c.TracesValidated(1)
-	})
-
 	// 1b. conformance of the model on the LARGE space through the batch front-end (one git process per 40000
 	// names): every extra name, every dense string up to conformance_len+1 behind four prefixes, and for names
 	// that are not under refs/ their image behind refs/x/ (same components, so the same per-component rules).
@@ -305,6 +291,10 @@ func runC13(c *fw.Ctx) {
 		addBatch(n)
 	}
 	verdict := c13GitBatch(c, batch)
+	if verdict == nil {
+		c.Incomplete("deadline reached during the batch conformance step")
+		return
+	}
 	c.Bound("batch_conformance_names", len(verdict))
 	for n, ok := range verdict {
 		if ok != gitRefnameOK(n) {
@@ -312,18 +302,6 @@ func runC13(c *fw.Ctx) {
 		}
 	}
 	c.TracesValidated(len(verdict))
-	// the batch front-end and `git check-ref-format` itself agree wherever both were asked
-	both := 0
-	for i, n := range confNames {
-		if v, ok := verdict[n]; ok && spawned[i] != 0 {
-			both++
-			if v != (spawned[i] == 1) {
-				fw.Abort("git check-ref-format and the packed-refs front-end disagree on %q", n)
-			}
-		}
-	}
-	c.Bound("names_asked_both_ways", both)
-
 	// 2. the real Validate against the model on the full space.
 	prefixes := []string{"", "refs/heads/", "refs/tags/", "refs/x/", "refs/heads/a/"}
 	words := []string{".lock", "@{", "HEAD", "a.lock", ".."}
@@ -408,4 +386,34 @@ func runC13(c *fw.Ctx) {
 			c.Sample(map[string]any{"name": extra[i], "git_accepts": gitRefnameOK(extra[i])})
 		}
 	})
+	// 3. the model against `git check-ref-format` itself, one process per name (slow on a loaded machine: last)
+	spawned := make([]int8, len(confNames)) // 0 not asked, 1 accepted, 2 rejected
+	c.ParDo(len(confNames), 0, func(i int) {
+		n := confNames[i]
+		if strings.HasPrefix(n, "-") { // git treats a leading dash as an option; covered behind refs/x/
+			return
+		}
+		r := g.Run("check-ref-format", n)
+		if r.Code != 0 && r.Code != 1 {
+			fw.Abort("git check-ref-format %q exit %d: %s", n, r.Code, r.Err)
+		}
+		if (r.Code == 0) != gitRefnameOK(n) {
+			fw.Abort("refname model disagrees with real git on %q: git=%v model=%v", n, r.Code == 0, gitRefnameOK(n))
+		}
+		spawned[i] = int8(r.Code) + 1
+		c.TracesValidated(1)
+	})
+
+	// the batch front-end and `git check-ref-format` itself agree wherever both were asked
+	both := 0
+	for i, n := range confNames {
+		if v, ok := verdict[n]; ok && spawned[i] != 0 {
+			both++
+			if v != (spawned[i] == 1) {
+				fw.Abort("git check-ref-format and the packed-refs front-end disagree on %q", n)
+			}
+		}
+	}
+	c.Bound("names_asked_both_ways", both)
+
 }
